@@ -418,13 +418,34 @@ func (rc *ruleCtx) wiring() {
 				bad = fmt.Sprintf("argument %d (%s) is not a directive-level value variable", i, o.Name())
 				break
 			}
-			if seen[o] {
+			if seen[o] && x.In.Origin == "X" {
+				// in the abstract expansion all parameter types are distinct
 				bad = fmt.Sprintf("variable %s is passed twice", o.Name())
 			}
 			seen[o] = true
 		}
 		as, _ := x.Par[call].(*ast.AssignStmt)
 		sig, _ := info.TypeOf(call.Fun).Underlying().(*types.Signature)
+		if bad == "" && sig != nil && x.In.Origin != "X" {
+			// concrete program: the generator keeps one variable per value type, so every parameter must
+			// receive the variable whose type is identical to the parameter's (assignable is not enough:
+			// that would be another provider's value)
+			off := 0
+			if len(call.Args) > 0 && astx.IdentObj(info, call.Args[0]) == j.CtxObj && j.CtxObj != nil {
+				off = 1
+			}
+			if sig.Params().Len() != len(call.Args) {
+				bad = "argument count differs from the user function's parameter count"
+			} else {
+				for i := off; i < len(call.Args); i++ {
+					at, pt := info.TypeOf(call.Args[i]), sig.Params().At(i).Type()
+					if at == nil || !types.Identical(at, pt) {
+						bad = fmt.Sprintf("argument %d has type %v but the parameter has type %v: the parameter receives the value of another provider", i, at, pt)
+						break
+					}
+				}
+			}
+		}
 		if sig != nil && sig.Results().Len() > 0 {
 			if as == nil || as.Tok != token.ASSIGN || len(as.Lhs) != sig.Results().Len() {
 				bad = "results of the user call are not assigned one variable per result"
